@@ -1,5 +1,6 @@
 import Mathlib.Data.List.Nodup
 import Proofs.RingConv
+import Proofs.RingGenEq
 
 /-!
 # C09 — replay buffers hold exactly the most recent transitions, each one intact
@@ -104,6 +105,180 @@ theorem C09_reorganize_transpose {α} (numEnv : Nat) (m : List (List α)) (i a :
     (hi : i < numEnv) (row : List α) (ha : m[a]? = some row) :
     ((reorganize numEnv m)[i]?.bind (·[a]?)) = some row[i]? := by
   simp [reorganize, hi, List.getElem?_map, ha]
+
+/-! ## the same theorems over the definitions generated from the source text
+
+`Gen/RingGen.lean` is written by `harness/py2lean_ring.py` from the source text of
+`agilerl/components/replay_buffer.py` (`ReplayBuffer.__init__/__len__/size/add/sample/clear`) and
+`agilerl/components/multi_agent_replay_buffer.py` (`MultiAgentReplayBuffer.__init__/__len__/_add/
+save_to_memory_single_env/save_to_memory_vect_envs/save_to_memory`) on every run of the check;
+`Proofs/RingGenEq.lean` proves that each generated method, on a state meeting the representation invariant,
+succeeds and abstracts to the model function.  The theorems below are the C09 theorems with the model
+functions replaced by the generated ones: Python integers, Python slice assignment (a row-count mismatch is
+`none`), a storage that is `None` until the first `add`, `deque(maxlen)`.  `f` stands for `ReplayBuffer._init`
+(assumed: `InitSpec`, it installs `max_size` zero rows), `rp` for `torch.randperm`, `r` for
+`_reorganize_dicts` (the per-environment transitions of a vectorised call). -/
+section source_translation
+open RingGen
+
+/-- the generated buffer reached from the generated `__init__(cap)` by generated `add`s -/
+def genRun (f : GBuf → List (Option Nat) → GBuf) (cap : Nat) (ops : List (List Nat)) : Option GBuf :=
+  ops.foldlM (fun s xs => ReplayBuffer.add f s (xs.map some)) (ReplayBuffer.init (cap : Int))
+
+/-- no generated `add` of a legal width fails, and the generated state abstracts to the model's `run` -/
+theorem C09_source_translation_run (f : GBuf → List (Option Nat) → GBuf) (hf : InitSpec f) (cap : Nat)
+    (hpos : 0 < cap) (ops : List (List Nat)) (hw : ∀ xs ∈ ops, xs.length ≤ cap) :
+    ∃ st, genRun f cap ops = some st ∧ absBuf st = run cap ops ∧ GenInv st ∧
+      (ops ≠ [] → st._storage.isSome) := by
+  obtain ⟨st, e, a, i, _, s⟩ := gen_adds_eq f hf ops (ReplayBuffer.init (cap : Int)) (gen_init_inv cap hpos)
+    (fun xs hx => by simp only [ReplayBuffer.init]; exact_mod_cast hw xs hx)
+  exact ⟨st, e, by rw [a, gen_init_eq]; rfl, i, s⟩
+
+/-- generated code: `len(buffer)` = min(capacity, number added); `_cursor` and `counter` follow the count -/
+theorem C09_source_translation_len_is_min (f : GBuf → List (Option Nat) → GBuf) (hf : InitSpec f) (cap : Nat)
+    (hpos : 0 < cap) (ops : List (List Nat)) (hw : ∀ xs ∈ ops, xs.length ≤ cap) :
+    ∃ st, genRun f cap ops = some st ∧
+      ReplayBuffer.len st = ((min ops.flatten.length cap : Nat) : Int) ∧
+      ReplayBuffer.size st = ((min ops.flatten.length cap : Nat) : Int) ∧
+      st._cursor = ((ops.flatten.length % cap : Nat) : Int) ∧
+      st.counter = (ops.flatten.length : Int) ∧
+      (∀ s, st._storage = some s → s.length = cap) := by
+  obtain ⟨st, e, a, i, _⟩ := C09_source_translation_run f hf cap hpos ops hw
+  obtain ⟨h1, h2, h3, h4⟩ := C09_len_is_min cap hpos ops hw
+  rw [← a] at h1 h2 h3 h4
+  obtain ⟨l1, l2⟩ := gen_len_eq st i
+  have hc := i.cursor_nonneg
+  have hk := i.counter_nonneg
+  refine ⟨st, e, by rw [l1, h1], by rw [l2, h1], ?_, ?_, ?_⟩
+  · simp only [absBuf] at h2; omega
+  · simp only [absBuf] at h3; omega
+  · intro s hs
+    simp only [absBuf, hs, Option.getD_some] at h4
+    exact h4
+
+/-- generated code: each of the last `min cap count` transitions is stored, the k-th one in row `k mod cap`
+    of the storage -/
+theorem C09_source_translation_recent_are_stored (f : GBuf → List (Option Nat) → GBuf) (hf : InitSpec f)
+    (cap : Nat) (hpos : 0 < cap) (ops : List (List Nat)) (hw : ∀ xs ∈ ops, xs.length ≤ cap) (k : Nat)
+    (hk : k < ops.flatten.length) (hrecent : ops.flatten.length - k ≤ cap) :
+    ∃ st s, genRun f cap ops = some st ∧ st._storage = some s ∧
+      s[k % cap]? = some (some ops.flatten[k]) := by
+  obtain ⟨st, e, a, i, hs⟩ := C09_source_translation_run f hf cap hpos ops hw
+  have hne : ops ≠ [] := by rintro rfl; simp at hk
+  obtain ⟨s, hs'⟩ := Option.isSome_iff_exists.mp (hs hne)
+  have := C09_recent_are_stored cap hpos ops hw k hk hrecent
+  rw [← a] at this
+  simp only [absBuf, hs', Option.getD_some] at this
+  exact ⟨st, s, e, hs', this⟩
+
+/-- generated code: nothing else is stored — every row below `len(buffer)` holds one of the last `cap`
+    transitions -/
+theorem C09_source_translation_stored_are_recent (f : GBuf → List (Option Nat) → GBuf) (hf : InitSpec f)
+    (cap : Nat) (hpos : 0 < cap) (ops : List (List Nat)) (hw : ∀ xs ∈ ops, xs.length ≤ cap) :
+    ∃ st, genRun f cap ops = some st ∧ ∀ j : Nat, (j : Int) < ReplayBuffer.len st →
+      ∃ s k, ∃ hk : k < ops.flatten.length, st._storage = some s ∧ ops.flatten.length - k ≤ cap ∧
+        k % cap = j ∧ s[j]? = some (some ops.flatten[k]) := by
+  obtain ⟨st, e, a, i, hs⟩ := C09_source_translation_run f hf cap hpos ops hw
+  refine ⟨st, e, fun j hj => ?_⟩
+  rw [(gen_len_eq st i).1, a] at hj
+  obtain ⟨k, hk, h1, h2, h3⟩ := C09_stored_are_recent cap hpos ops hw j (by exact_mod_cast hj)
+  have hne : ops ≠ [] := by rintro rfl; simp at hk
+  obtain ⟨s, hs'⟩ := Option.isSome_iff_exists.mp (hs hne)
+  rw [← a] at h3
+  simp only [absBuf, hs', Option.getD_some] at h3
+  exact ⟨s, k, hk, hs', h1, h2, h3⟩
+
+/-- generated code: `sample(batch_size)` — a prefix of `randperm(self.size)` gathered from the storage —
+    succeeds on a non-empty buffer, returns only stored, recent transitions and, when transition ids are
+    distinct, no duplicates.  Assumed about `torch.randperm(n)`: distinct values in `[0, n)`. -/
+theorem C09_source_translation_sample_stored_distinct (f : GBuf → List (Option Nat) → GBuf) (hf : InitSpec f)
+    (rp : Int → List Int) (hrp : ∀ n, (rp n).Nodup ∧ ∀ i ∈ rp n, 0 ≤ i ∧ i < n)
+    (cap : Nat) (hpos : 0 < cap) (ops : List (List Nat)) (hw : ∀ xs ∈ ops, xs.length ≤ cap) (hne : ops ≠ [])
+    (n : Int) (hn : 0 ≤ n) (ret : Bool) (hids : ops.flatten.Nodup) :
+    ∃ st batch, genRun f cap ops = some st ∧ ReplayBuffer.sample rp st n ret = some batch ∧
+      (∀ x ∈ batch, ∃ k, ∃ hk : k < ops.flatten.length,
+        ops.flatten.length - k ≤ cap ∧ x = some ops.flatten[k]) ∧
+      batch.Nodup := by
+  obtain ⟨st, e, a, i, hs⟩ := C09_source_translation_run f hf cap hpos ops hw
+  obtain ⟨s, hs'⟩ := Option.isSome_iff_exists.mp (hs hne)
+  obtain ⟨hnd, hr⟩ := hrp (ReplayBuffer.size st)
+  have hsz := (gen_len_eq st i).2
+  have hlen : s.length = cap := by
+    have h4 := (C09_len_is_min cap hpos ops hw).2.2.2
+    rw [← a] at h4
+    simpa only [absBuf, hs', Option.getD_some] using h4
+  have hsize_le : (absBuf st).size ≤ cap := by
+    rw [a, (C09_len_is_min cap hpos ops hw).1]; exact Nat.min_le_right _ _
+  have hrange : ∀ j ∈ rp (ReplayBuffer.size st), 0 ≤ j ∧ j.toNat < s.length := by
+    intro j hj
+    obtain ⟨h0, h1⟩ := hr j hj
+    rw [hsz] at h1
+    omega
+  have hperm : ∀ j ∈ (rp (ReplayBuffer.size st)).map Int.toNat, j < (run cap ops).size := by
+    intro j hj
+    obtain ⟨j', hj', rfl⟩ := List.mem_map.mp hj
+    obtain ⟨h0, h1⟩ := hr j' hj'
+    rw [hsz, a] at h1
+    omega
+  have hpnd : ((rp (ReplayBuffer.size st)).map Int.toNat).Nodup := by
+    refine List.Nodup.map_on ?_ hnd
+    intro x hx y hy hxy
+    have := (hr x hx).1
+    have := (hr y hy).1
+    omega
+  obtain ⟨c1, c2⟩ := C09_sample_stored_distinct cap hpos ops hw _ n.toNat hperm hpnd hids
+  refine ⟨st, _, e, gen_sample_eq rp st s hs' n hn ret hrange, ?_, ?_⟩
+  · rw [a]; exact c1
+  · rw [a]; exact c2
+
+/-- generated code: `clear()` succeeds, the buffer is empty afterwards and, apart from the running counter,
+    it is the buffer the generated `__init__` makes -/
+theorem C09_source_translation_clear_resets (st : GBuf) (h : GenInv st) :
+    ∃ st', ReplayBuffer.clear st = some st' ∧ ReplayBuffer.len st' = 0 ∧ (absBuf st').contents = [] ∧
+      { st' with counter := 0 } = ReplayBuffer.init st.max_size := by
+  obtain ⟨st', e, a, i, _, _⟩ := gen_clear_eq st h
+  obtain ⟨c1, c2, _⟩ := C09_clear_resets (absBuf st)
+  refine ⟨st', e, ?_, by rw [a]; exact c2, ?_⟩
+  · rw [(gen_len_eq st' i).1, a, c1]; rfl
+  · cases e; rfl
+
+/-- the generated multi-agent buffer reached from the generated `__init__(cap)` by generated
+    `save_to_memory(x, is_vectorised=b)` calls -/
+def genMaRun (r : Nat → List Nat) (cap : Nat) (calls : List (Nat × Bool)) : Option GDeq :=
+  (MultiAgentReplayBuffer.init (cap : Int)).bind
+    (fun st => calls.foldlM (fun s c => MultiAgentReplayBuffer.save_to_memory r s c.1 c.2) st)
+
+/-- generated code: after any sequence of single and vectorised `save_to_memory` calls the deque holds
+    exactly the last `cap` transitions, in order; `len` and `counter` follow the count -/
+theorem C09_source_translation_deque_last_n (r : Nat → List Nat) (cap : Nat) (hpos : 0 < cap)
+    (calls : List (Nat × Bool)) :
+    ∃ st, genMaRun r cap calls = some st ∧
+      st.memory.items = lastN cap (maHist r calls) ∧
+      st.counter = ((maHist r calls).length : Int) ∧
+      MultiAgentReplayBuffer.len st = ((min cap (maHist r calls).length : Nat) : Int) := by
+  obtain ⟨st0, e0, a0, i0⟩ := gen_ma_init_eq cap hpos
+  obtain ⟨st, e, a, i⟩ := gen_ma_run_eq r calls st0 i0
+  obtain ⟨h1, h2⟩ := C09_deque_refines_last_n cap (maHist r calls)
+  rw [a0] at a
+  rw [← a] at h1 h2
+  have hk := i.counter_nonneg
+  refine ⟨st, by simp only [genMaRun, e0, Option.bind_some]; exact e, h1, ?_, ?_⟩
+  · simp only [absDeq] at h2; omega
+  · rw [gen_ma_len_eq]
+    have h1' : st.memory.items = lastN cap (maHist r calls) := h1
+    show ((st.memory.items.length : Nat) : Int) = _
+    rw [h1']
+    simp only [lastN, List.length_drop]
+    omega
+
+/-! non-vacuity of the source-translation theorems: the generated functions on concrete histories -/
+example : (genRun (fun st _ => { st with _storage := some (List.replicate st.max_size.toNat none), initialized := true })
+    3 [[1, 2], [3, 4], [5]]).map (fun st => (st._storage, ReplayBuffer.len st))
+    = some (some [some 4, some 5, some 3], 3) := by decide
+example : (genMaRun (fun n => [n, n + 1]) 2 [(1, false), (5, true)]).map (fun st => (st.memory.items, st.counter))
+    = some ([5, 6], 3) := by decide
+
+end source_translation
 
 /-! non-vacuity: concrete wrap-around histories satisfy the hypotheses and the conclusions
     are the expected concrete buffers -/
